@@ -194,11 +194,13 @@ func cmdCheck(args []string) {
 		for _, v := range vs {
 			total++
 			solverMs += v.Millis
-			good := (v.Status == "unsat" && !v.Obl.WantSat) || (v.Status == "sat" && v.Obl.WantSat)
+			good := verdictGood(v)
 			st := v.Status
 			if v.Obl.WantSat {
-				if good {
+				if good && v.Status == "sat" {
 					st = "sat(expected: non-vacuous)"
+				} else if good {
+					st = v.Status + "(vacuity check: assumptions not shown contradictory)"
 				} else {
 					st = v.Status + "(VACUOUS?)"
 				}
